@@ -467,6 +467,8 @@ class OpsMixin:
                         r = False
             if r is None:
                 r = self.decide(self.describe_cond(node), node, frame)
+                if isinstance(a, External) or isinstance(b, External):
+                    self.event("ext-compare", a=a, b=b, equal=r, where=frame.where(node), node=node)
                 if ka is not None and self.is_static(b):
                     try:
                         hash(b)
